@@ -1,4 +1,104 @@
-"""./check --setup: self-test of the reference oracles (filled in as they are written)."""
+"""./check --setup: self-test of the reference oracles against CPython (json, float, int) and fixed MessagePack vectors.
+A reference that disagrees with its cross-check makes the setup fail (exit 2): its verdicts could not be trusted."""
+import json, os, subprocess, sys
+from . import core
+
+
+def dump_py(v):
+    if v is None:
+        return 'n'
+    if v is True:
+        return 't'
+    if v is False:
+        return 'f'
+    if isinstance(v, int):
+        return 'i%d' % v
+    if isinstance(v, float):
+        return 'd' + cfloat(v)
+    if isinstance(v, str):
+        return 's' + v.encode('utf-8', 'surrogatepass').hex()
+    if isinstance(v, list) and v and isinstance(v[0], tuple) and v[0][0] == '\x00pairs':
+        return '{' + ','.join('s' + k.encode('utf-8', 'surrogatepass').hex() + ':' + dump_py(x) for k, x in v[1:]) + '}'
+    if isinstance(v, list):
+        return '[' + ','.join(dump_py(x) for x in v) + ']'
+    raise ValueError(type(v))
+
+
+def cfloat(x):
+    """C's %a for a finite double, from Python's float.hex() (normalises the mantissa like glibc)."""
+    if x != x:
+        return 'nan'
+    if x in (float('inf'), float('-inf')):
+        return '-inf' if x < 0 else 'inf'
+    if x == 0:
+        return '-0x0p+0' if str(x).startswith('-') else '0x0p+0'
+    h = x.hex()            # e.g. -0x1.8000000000000p+0
+    sign = '-' if h.startswith('-') else ''
+    h = h.lstrip('-')
+    mant, exp = h[2:].split('p')
+    ip, fp = mant.split('.')
+    fp = fp.rstrip('0')
+    return '%s0x%s%sp%+d' % (sign, ip, ('.' + fp) if fp else '', int(exp))
+
+
+def pairs_hook(pairs):
+    return [('\x00pairs', None)] + list(pairs)
+
+
+def dedup(v):
+    """model semantics are 'all pairs in order'; CPython keeps pairs through the hook: compare as sequences"""
+    return v
+
+
 def run():
-    print('setup: ok')
-    return 0
+    os.makedirs(os.path.join(core.BUILD, 'selftest'), exist_ok=True)
+    exe = os.path.join(core.BUILD, 'selftest', 'selftest')
+    src = os.path.join(core.HARNESS, 'drivers', 'selftest.cpp')
+    r = subprocess.run(['g++', '-std=gnu++17', '-O1', '-g', src, '-o', exe], stdout=subprocess.PIPE, stderr=subprocess.STDOUT, text=True)
+    if r.returncode:
+        print(r.stdout[-3000:])
+        print('setup: reference oracles do not compile')
+        return 2
+    out = subprocess.run([exe, '4000'], stdout=subprocess.PIPE, text=True).stdout
+    bad, counts = [], {}
+    for line in out.splitlines():
+        d = json.loads(line)
+        k = d['k']
+        counts[k] = counts.get(k, 0) + 1
+        if k == 'json':
+            text = bytes.fromhex(d['text']).decode('utf-8', 'surrogatepass')
+            try:
+                py = json.loads(text, object_pairs_hook=pairs_hook)
+            except Exception as e:
+                bad.append('CPython rejects a text the reference renderer produced: %r (%s)' % (text[:80], e))
+                continue
+            dp = dump_py(py)
+            if dp != d['model']:
+                bad.append('renderer: CPython reads %s, model is %s for %r' % (dp[:120], d['model'][:120], text[:80]))
+            if not d['parsed_ok'] or d['parsed'] != dp:
+                bad.append('parser: reference parser reads %s, CPython %s for %r' % (d['parsed'][:120], dp[:120], text[:80]))
+        elif k == 'lit':
+            lit = d['lit']
+            try:
+                pf = float(lit)
+            except ValueError:
+                continue
+            if cfloat(pf) != d['dbl']:
+                bad.append('literal %s: reference %s, CPython %s' % (lit[:60], d['dbl'], cfloat(pf)))
+            if d['is_int'] and int(lit) != int(d['int']):
+                bad.append('integer literal %s: reference %s' % (lit[:60], d['int']))
+        elif k == 'mpvec':
+            if not d['ok'] or d['consumed'] != d['len'] or d['got'] != d['want']:
+                bad.append('MessagePack vector %s decodes to %s, expected %s' % (d['hex'], d['got'], d['want']))
+        elif k == 'mprt':
+            if d['bad']:
+                bad.append('MessagePack encode/decode identity or prefix rule failed on %d of %d cases' % (d['bad'], d['cases']))
+        elif k == 'dialect':
+            if d['got'] != d['want']:
+                bad.append('dialect recogniser: %r -> %s, expected %s' % (bytes.fromhex(d['text']), d['got'], d['want']))
+    if not counts.get('json') or not counts.get('lit') or not counts.get('dialect'):
+        bad.append('self-test produced no cases')
+    for b in bad[:20]:
+        print('SELFTEST-FAIL: ' + b)
+    print('setup: oracle self-test %s (%s)' % ('FAILED' if bad else 'ok', ', '.join('%s=%d' % kv for kv in sorted(counts.items()))))
+    return 2 if bad else 0
